@@ -149,3 +149,71 @@ func VerifC14Delete() {
 	}
 	api.Assert(v.Delete(ctx, p1.ID) != nil, "C14: deleting an id that does not exist is an error")
 }
+
+// VerifC14Interleave: histories of Create and Delete over two plans (the quantifier's "interleaved creates and
+// deletes of several plans"), against a reference set of stored ids. After every operation its result is what the
+// reference says; after the history every stored plan is complete and equal to what was created, and every absent
+// plan has no row in any table and is not readable. Re-creating a deleted id must work.
+func VerifC14Interleave() {
+	v, _ := vhVault()
+	ctx := context.Background()
+	plans := [2]*workflow.Plan{vhStoredX("one.", true, true), vhStoredX("two.", true, true)}
+	// plan one carries solver variables where the stored value is an integer column or part of an encoded blob
+	plans[0].Reason = workflow.FailureReason(api.NondetInt("one.reason"))
+	plans[0].State.Status = workflow.Status(api.NondetInt("one.status"))
+	plans[0].Blocks[0].Concurrency = api.NondetInt("one.conc")
+	plans[0].Blocks[0].ToleratedFailures = api.NondetInt("one.tol")
+	plans[0].Blocks[0].Sequences[0].Actions[0].Retries = api.NondetInt("one.retries")
+	stored := [2]bool{}
+	n := api.Bound("history", 4, 5)
+	recreated := false
+	deletedOnce := [2]bool{}
+	for step := 0; step < n; step++ {
+		op := api.Choose("op", 4)
+		i := op & 1
+		if op < 2 {
+			err := v.Create(ctx, plans[i])
+			if stored[i] {
+				api.Assert(err != nil, "C14: creating an id twice fails (history)")
+			} else {
+				api.Assert(err == nil, "C14: Create of an absent id succeeds, also after it was deleted (history)")
+				if deletedOnce[i] {
+					recreated = true
+				}
+				stored[i] = true
+			}
+		} else {
+			err := v.Delete(ctx, plans[i].ID)
+			if stored[i] {
+				api.Assert(err == nil, "C14: Delete of a stored plan succeeds (history)")
+				stored[i] = false
+				deletedOnce[i] = true
+			}
+		}
+		api.Assert(api.SQLOpenTx() == 0 && !api.SQLConnTaken(), "C14: no open transaction or held connection between operations (history)")
+		for k := 0; k < 2; k++ {
+			if stored[k] {
+				api.Assert(vhRowsOf(v, plans[k].ID) == vhObjects(plans[k]), "C14: a stored plan keeps one row per object whatever happens to other plans (history)")
+			} else {
+				api.Assert(vhRowsOf(v, plans[k].ID) == 0, "C14: an absent plan has no row in any table (history)")
+			}
+		}
+	}
+	for k := 0; k < 2; k++ {
+		got, err := v.Read(ctx, plans[k].ID)
+		if stored[k] {
+			api.Assert(err == nil && got != nil, "C14: a stored plan is readable (history)")
+			if err == nil && got != nil {
+				vhEqPlan(plans[k], got)
+			}
+		} else {
+			api.Assert(err != nil && got == nil, "C14: an absent plan is not readable (history)")
+		}
+	}
+	if recreated {
+		api.Reach("plan re-created after delete")
+	}
+	if stored[0] && !stored[1] && deletedOnce[1] {
+		api.Reach("one plan stored, the other deleted")
+	}
+}
